@@ -125,6 +125,9 @@ class World:
             elif op == "wf":
                 init = r.choice([None, None, {"basis": r.randrange(2 ** 5)}, {"rand": r.getrandbits(30)}])
                 s = {"op": "wf", "args": {"sim": r.randrange(8), "c": r.randrange(64), "init": init}}
+                if init is not None and r.random() < 0.3:
+                    # the client evolves ONE buffer layer by layer: psi[:] = sim.get_wavefunction(c, psi).amplitudes
+                    s["args"]["chain"] = r.randint(1, 3)
                 if r.random() < pf:
                     s["fault"] = r.choice([{"kind": "peer", "at": r.randrange(0, 3)}, {"kind": "alloc", "at": r.randrange(0, 20)}])
                 steps.append(s)
@@ -447,6 +450,28 @@ class World:
                       lambda: f"{type(sim).__name__}[{ctx.config['sims'][si]}] final state differs from model by {err:.3e} for {ent['c']!r} init={a['init']}")
         if is_split:
             self._check_partition(ctx, st, sim, ent, mark)
+        # the same circuit on the same ndarray OBJECT, whose content the client has meanwhile replaced by the previous
+        # answer (repeated application of a layer in one buffer): the answer is a function of the content, not of the object
+        for rep in range(a.get("chain", 0) if init is not None and len(got) == len(init) else 0):
+            init[:] = got
+            cur = init.copy()
+            if is_split:
+                sim.arm(None)
+                sim.inplace_ok = False
+            okc, resc = call(sim.get_wavefunction, ent["c"], init)
+            ctx.called("get_wavefunction:" + type(sim).__name__)
+            ctx.probe("buffer-reused")
+            if not okc:
+                ctx.fail("unexpected-reject", "simulate-chain", f"get_wavefunction raised {type(resc).__name__}: {resc} when the same circuit was "
+                                                                f"applied again to the buffer holding the previous answer ({ent['c']!r})")
+            ctx.check(np.array_equal(init, cur), "mutated-argument", "initial-state", "get_wavefunction changed the initial state array")
+            wantc, _ = self._model(ctx, ent, cur)
+            with judge(ctx):
+                got = np.asarray(resc.amplitudes, dtype=complex).reshape(-1)
+                errc = float(np.max(np.abs(got - wantc)))
+                ctx.check(errc <= self._tol(ent) * (rep + 2), "refine", "final-state:buffer-reused",
+                          lambda: f"{type(sim).__name__}[{ctx.config['sims'][si]}]: application {rep + 2} of {ent['c']!r} to one buffer (content replaced by the "
+                                  f"previous answer) differs from the model by {errc:.3e}")
         ctx.log("wf", "ok", sim=si, n=n, n_ops=len(ent["ops"]))
 
     def _check_partition(self, ctx, st, sim, ent, mark):
@@ -463,12 +488,22 @@ class World:
             ctx.probe("multi-segment-split")
             st["interesting"] = True
         native = [g for v, g in groups if v]
-        ctx.check(len(calls_) == len(native), "refine", "native-invocations",
-                  f"peer was invoked {len(calls_)} times, expected {len(native)} native segments")
-        for (ops, nq), g in zip(calls_, native):
+        if not calls_ and native:
+            # answered (correctly - the state was judged above) without consulting the peer: the property does not say
+            # that the peer must be asked, only what the answer is
+            ctx.probe("answered-without-peer")
+            return
+        # what the peer was handed must be the native operations of the program, in order, on the full register; how
+        # they are cut into sub-circuits is the library's business
+        flat_seen = [o for ops, _ in calls_ for o in ops]
+        flat_want = [o for g in native for o in g]
+        for ops, nq in calls_:
             ctx.check(nq == ent["n"], "refine", "segment-width", f"native sub-circuit has width {nq}, circuit has {ent['n']}")
-            ctx.check(len(ops) == len(g) and all(x is y or x == y for x, y in zip(ops, g)), "refine", "segment-ops",
-                      "native sub-circuit does not hold the expected operations in order")
+        ctx.check(len(flat_seen) == len(flat_want) and all(x is y or x == y for x, y in zip(flat_seen, flat_want)), "refine", "segment-ops",
+                  f"the peer was handed {len(flat_seen)} operations in {len(calls_)} sub-circuits; the program has {len(flat_want)} native operations "
+                  f"in {len(native)} runs, or they differ / are out of order")
+        if len(calls_) != len(native):
+            ctx.probe("native-runs-cut-differently")
 
     def _do_unitary(self, ctx, st, step, a):
         ent = self._pick(st, a["c"])
